@@ -556,8 +556,39 @@ def r6_description_always_validated(repo=None):
     return r
 
 
+CURSOR_OWNERS = ("digital_rf_create_write_hdf5", "digital_rf_write_samples_to_file")
+
+
+def r7_cursor_has_one_owner(repo=None):
+    """'write-once, forward-only': the library's write cursor (global_index) is what makes a write "at or before an index already
+    written" recognisable.  It is set once by the constructor and advanced by the per-file write step after the data and the index
+    of that file are written; no other function stores it.  A caller that saves it on entry and puts it back when a later part
+    of the call fails makes the part already written writable again: the repeated call appends the same samples a second time,
+    and the finalized file's block index is no longer strictly increasing (who-may-write table, owners frozen from the
+    reference tree; static helpers are inlined into their callers before the table is read)."""
+    r = Rule("C05.R7", "the write cursor is stored only by its owners (constructor, per-file write step)")
+    tu = cfront.lib(repo)
+    n = 0
+    for fname, fn in tu.functions.items():
+        for path, node, rhs, kind in clib.stores(fn):
+            if path != OBJ + "->global_index":
+                continue
+            n += 1
+            site = "%s:%s %s `%s`" % (LIB, node.line, fname, node.nsrc[:60])
+            if fname in CURSOR_OWNERS:
+                r.ok(site, "store by an owner of the cursor")
+            else:
+                r.violation(LIB, fname, node.nsrc[:80], "the write cursor is stored outside its owners: putting it back (or moving it) from a "
+                            "caller makes samples that are already in a file writable again - a repeated call appends them a second time and "
+                            "the finalized file's block index describes overlapping blocks", line=node.line)
+    if n < 2:
+        raise AnalysisError("stores of the write cursor not found (%d; 4 confirmed on the reference tree)" % n)
+    r.guard(2)
+    return r
+
+
 def rules(repo=None):
-    return [lambda: r5_existing_target_refused_first(repo), lambda: r6_description_always_validated(repo), lambda: r1_validate_before_effect_c(repo), lambda: r2_validate_before_effect_py(repo),
+    return [lambda: r7_cursor_has_one_owner(repo), lambda: r5_existing_target_refused_first(repo), lambda: r6_description_always_validated(repo), lambda: r1_validate_before_effect_c(repo), lambda: r2_validate_before_effect_py(repo),
             lambda: r3_extension_reports_rejection(repo), lambda: r4_forward_only_guard(repo)]
 
 
@@ -573,7 +604,10 @@ EXPLANATION = (
     "can reach an existence test whose 'found' side refuses the call - a write into a file that already exists is refused"
     ' before anything is changed (a later repetition of the same test is the race window only). R6: every path of '
     'digital_rf_write_blocks_hdf5 to return(0) passes the per-file validation or, for an empty vector, a test of the '
-    'offsets array that can end in an error. Does NOT decide that the predicates are arithmetically right.')
+    'offsets array that can end in an error. R7: who-may-store table of the write cursor (global_index): the constructor '
+    'and the per-file write step only; a caller that puts the cursor back after a partial write makes written samples '
+    'writable again (C06: the repeated call appends them a second time). Does NOT decide that the predicates are '
+    'arithmetically right.')
 TECHNIQUE = ('clang JSON AST + Python ast; CFG reachability between effects and input-rejection returns; effect summaries over the call tree; dominance')
 ASSUMPTIONS = ["the effect table (clib.EFFECT_CALLS, cursor fields) is complete for this library",
                "gmtime/snprintf/strcmp are effect-free", "clang 14 AST and CPython ast are faithful"]
